@@ -165,7 +165,7 @@ type modelConf struct {
 
 func main() {
 	var (
-		repo    = flag.String("repo", "", "girc source tree (default: the replace directive of -gomod)")
+		repo    = flag.String("repo", "", "girc source tree (default: $VERIF_REPO, else the replace directive of -gomod)")
 		gomod   = flag.String("gomod", "go.mod", "harness go.mod")
 		confP   = flag.String("conf", "../conf/C12.known.json", "model configuration and exclusion lists")
 		outV    = flag.String("out", "../coq/Generated/LockFacts.v", "Coq output")
@@ -174,6 +174,10 @@ func main() {
 		verbose = flag.Bool("v", false, "print the trees")
 	)
 	flag.Parse()
+	if *repo == "" {
+		// development aid (bin/seedtest): check a scratch copy of the repository
+		*repo = os.Getenv("VERIF_REPO")
+	}
 	if *repo == "" {
 		*repo = repoFromGoMod(*gomod)
 	}
